@@ -85,8 +85,8 @@ var fieldTypes = []reflect.Type{
 var stringable = map[reflect.Kind]bool{reflect.Bool: true, reflect.Int: true, reflect.Int8: true, reflect.Int64: true, reflect.Uint: true, reflect.Uint8: true, reflect.Uint64: true,
 	reflect.Float32: true, reflect.Float64: true, reflect.String: true}
 
-var fieldNames = []string{"A", "B", "C", "Dd", "E", "Ff", "G", "Name", "Value", "X1", "Kk", "Sk"}
-var tagNames = []string{"a", "b", "A", "name", "NAME", "x-y", "é", "dd", "", "value", "0", "ks", "KS"}
+var fieldNames = []string{"A", "B", "C", "Dd", "E", "Ff", "G", "Name", "Value", "X1", "Kk", "Sk", "Straße", "Schlüssel", "Kmø"}
+var tagNames = []string{"a", "b", "A", "name", "NAME", "x-y", "é", "dd", "", "value", "0", "ks", "KS", "sé", "kmØ"}
 
 // genStructType builds a struct type with json tags: renamed, omitempty,
 // string, "-", case-colliding names, embedded structs and pointers to them.
